@@ -55,6 +55,11 @@ theorem setCnr_sorted (db : DB) (h : DBSorted db) (cn : Nat) (v : Cnr) : DBSorte
         · simp only; omega
         · exact h.1 y hm
 
+theorem dbSyncCounters_sorted (db : DB) (h : DBSorted db) : DBSorted (dbSyncCounters db) := by
+  unfold DBSorted dbSyncCounters at *
+  rw [List.pairwise_map]
+  exact h
+
 theorem step_sorted (s : St) (op : Op) (h : DBSorted s.db) : DBSorted (step s op).db := by
   cases op with
   | setEpoch e => exact h
@@ -96,6 +101,7 @@ theorem step_sorted (s : St) (op : Op) (h : DBSorted s.db) : DBSorted (step s op
       · split
         · exact setCnr_sorted _ h _ _
         · exact h
+  | syncCounters => simp only [step]; exact dbSyncCounters_sorted _ h
 
 /-- every reachable metabase keeps its buckets in container order -/
 theorem run_sorted (ops : List Op) : DBSorted (run ops).db := by
